@@ -67,6 +67,7 @@ type Opts struct {
 	Funcs        []string // extra functions taking one argument and returning it
 	Globals      bool
 	IJ           bool
+	DropRequired float64 // probability that a call omits a required param (a compile error that prints the call)
 }
 
 // DefaultOpts are the bounds of DESIGN.md 4 (C06).
@@ -689,8 +690,13 @@ func (x *g) call(depth int) *Node {
 			}
 		}
 	}
+	dropped := false
 	for _, p := range s.params {
 		if !need[p.Name] && !(p.Optional && x.chance(0.3)) {
+			continue
+		}
+		if need[p.Name] && !dropped && len(n.Args) > 0 && x.o.DropRequired > 0 && x.chance(x.o.DropRequired) {
+			dropped = true
 			continue
 		}
 		if n.Data == "$m" {
